@@ -154,6 +154,11 @@ class OpsMixin:
                     (isinstance(a, TupleT) or a.cls == "tuple" or isinstance(b, (tuple, TupleT)) or b.cls == "tuple"):
                 f = self.ctx.fn("tuple_concat", U, U, U)
                 return UVal(f(self.to_u(a), self.to_u(b)), "tuple")
+        if op == "Mult":
+            # sequence repetition with a concrete count
+            for s_, n_ in ((a, b), (b, a)):
+                if isinstance(s_, (list, tuple)) and isinstance(n_, int) and not isinstance(n_, bool):
+                    return s_ * n_
         if op == "BitOr" and _typeish(a) and _typeish(b):
             # typing union  X | Y  -> tuple of alternatives (usable by isinstance)
             ta = a if isinstance(a, tuple) else (a,)
@@ -562,6 +567,13 @@ class OpsMixin:
         if isinstance(v, SymMap):
             f = c.fn("mk_dict", z3.ArraySort(U, z3.BoolSort()), z3.ArraySort(U, U), U)
             return f(v.has, v.val)
+        if hasattr(v, "pyvc_getattr"):
+            # a contract-supplied record (e.g. a schematic jaxpr): an opaque value, one constant per object (identity)
+            if not hasattr(self, "_rec_u"):
+                self._rec_u = {}
+            if id(v) not in self._rec_u:
+                self._rec_u[id(v)] = (self.ctx.const("record", U), v)
+            return self._rec_u[id(v)][0]
         raise Unsupported(f"to_u of {type(v).__name__}")
 
     def stack_to_u(self, v):
